@@ -295,6 +295,7 @@ func c08(c *Ctx) {
 	}
 	c08handlers(c)
 	c08values(c)
+	c08fresh(c)
 	c08recheck(c)
 	c08estimateNode(c)
 }
